@@ -403,6 +403,30 @@ func Replay(bno int, steps []Step, root string, tw *trace.Writer, opts Opts) (dr
 	case <-time.After(5 * time.Second):
 		tw.Emit("Probe", M{"ok": 0, "timeout": 1})
 	}
+	// an open that fails leaves nothing behind: a shard whose file cannot be opened (a directory sits in
+	// its place) gives a clean error, and once the file is repaired the next request loads it
+	if !opts.BackupFail {
+		const sick = "shard-sick"
+		bad := filepath.Join(dir, cluster.USERCOLSDIR, rp.col.UserId, rp.col.Id, sick, "sharddb.bbolt")
+		ask := func() (bool, bool) {
+			done := make(chan error, 1)
+			go func() {
+				done <- rp.sm.DoWithShard(rp.col, sick, func(s *shard.Shard) error { _, e := s.Info(); return e })
+			}()
+			select {
+			case err := <-done:
+				return err == nil, false
+			case <-time.After(5 * time.Second):
+				return false, true
+			}
+		}
+		if err := os.MkdirAll(bad, 0o755); err == nil {
+			first, to1 := ask()
+			os.RemoveAll(bad)
+			second, to2 := ask()
+			tw.Emit("OpenFail", M{"first": b2i(first), "second": b2i(second), "timeout": b2i(to1 || to2)})
+		}
+	}
 	// unload whatever is still loaded so that files and goroutines are released
 	rp.mu.Lock()
 	for _, t := range rp.timers {
